@@ -5,6 +5,7 @@ import (
 	"fmt"
 	"os"
 	"reflect"
+	"strings"
 	"testing"
 
 	"github.com/brutella/hc/characteristic"
@@ -95,7 +96,7 @@ func invariant(ch *characteristic.Characteristic, typed interface{}, hadValue bo
 	if _, err := json.Marshal(ch); err != nil {
 		return fmt.Errorf("characteristic no longer JSON-encodes: %v", err)
 	}
-	if readable(ch) {
+	if readable(ch) && typed != nil {
 		var perr error
 		func() {
 			defer func() {
@@ -292,6 +293,68 @@ func TestC12Matrix(t *testing.T) {
 	}
 }
 
+// TestC12Composed: the same invariant for every characteristic as it sits inside every service and every
+// accessory the library can build. A service or accessory constructor may re-declare bounds, formats or
+// defaults of the characteristics it is made of; what counts is the declaration a controller sees.
+func TestC12Composed(t *testing.T) {
+	values := []interface{}{true, float64(0), float64(1), float64(-1), 0.5, float64(26), float64(36), float64(101), float64(361), float64(1 << 31), float64(-(1 << 31)), 1e19, -1e19, 1e308, -1e308, "12", "abc", "NaN", "1e400", []interface{}{float64(1)}}
+	type owner struct {
+		name  string
+		chars func() []*characteristic.Characteristic
+	}
+	var owners []owner
+	for _, c := range registry.Services {
+		c := c
+		owners = append(owners, owner{"service." + c.Name, func() []*characteristic.Characteristic {
+			svc, _, err := registry.NewService(c)
+			if err != nil {
+				return nil
+			}
+			return svc.Characteristics
+		}})
+	}
+	for _, c := range registry.Accessories {
+		c := c
+		owners = append(owners, owner{"accessory." + c.Name, func() []*characteristic.Characteristic {
+			acc, _, err := registry.NewAccessory(c, registry.DefaultArgs("c12"))
+			if err != nil {
+				return nil
+			}
+			var out []*characteristic.Characteristic
+			for _, svc := range acc.Services {
+				out = append(out, svc.Characteristics...)
+			}
+			return out
+		}})
+	}
+	k, n := stats.Shard()
+	for oi, o := range owners {
+		if oi%n != k {
+			continue
+		}
+		nchars := len(o.chars())
+		for ci := 0; ci < nchars; ci++ {
+			for vi, v := range values {
+				for _, remote := range []bool{false, true} {
+					ch := o.chars()[ci] // a fresh object for every case
+					conn := &hx.DummyConn{Name: "10.0.0.9:2"}
+					stats.Case(stats.Hash("composed", o.name, ci, vi, remote), hx.JSONKind(v) != hx.FormatKind(ch.Format) || true, []string{"composed:" + strings.SplitN(o.name, ".", 2)[0]}, func() interface{} {
+						return map[string]interface{}{"built_by": o.name, "characteristic_type": ch.Type, "format": ch.Format, "declared_min": ch.MinValue, "declared_max": ch.MaxValue, "value": fmt.Sprintf("%#v", v), "remote": remote}
+					})
+					had := ch.Value != nil
+					err := apply(ch, step{Remote: remote, Value: v}, conn)
+					if err == nil {
+						err = invariant(ch, nil, had)
+					}
+					if err != nil {
+						stats.Fail("TestC12Composed", err.Error(), map[string]interface{}{"built_by": o.name, "characteristic_type": ch.Type, "value": fmt.Sprintf("%#v", v), "remote": remote})
+						t.Errorf("%s, characteristic of type %s (format %s, declared range %v..%v), value %#v remote=%v: %v", o.name, ch.Type, ch.Format, ch.MinValue, ch.MaxValue, v, remote, err)
+					}
+				}
+			}
+		}
+	}
+}
 
 // rebound declares new bounds through the typed setters (SetMinValue / SetMaxValue / SetStepValue).
 func rebound(typed interface{}, format string, s step) (err error) {
